@@ -6,6 +6,7 @@ cd /repo
 if ! git diff --quiet; then echo "/repo has uncommitted changes"; exit 9; fi
 git apply $sd/patch.diff || { echo "PATCH DOES NOT APPLY"; exit 8; }
 cd /verif
+export VERIF_EVIDENCE_DIR=/tmp/run_seed_evidence   # evidence/ describes /repo itself, never a patched tree
 for p in "$@"; do
   ./check $p > /tmp/run_seed_$p.out 2>&1; rc=$?
   echo "--- $p rc=$rc"; grep -E "^==|^FINDING|^VIOLATION|^ANCHOR" /tmp/run_seed_$p.out | cut -c1-260 | head -12
